@@ -18,7 +18,10 @@ LEVEL = "exploration"
 RULE = ("random programs of 5-40 events over objects drawn from {Operator, SelfAdjointOperator, Hamiltonian, ReducedDensityMatrix, DensityMatrix, "
         "TransitionDipoleMoment, SuperOperator, Lindblad relaxation tensor (tensor and operator form), DensityMatrixEvolution} of dimension 2-5, nesting "
         "depth 1-3, the same or different context operators incl. degenerate and already diagonal ones, objects created inside contexts, protect/unprotect in "
-        "the documented idiom, a harness exception at a random event (50 %) or a failpoint at a random library statement (15 %). "
+        "the documented idiom, a harness exception at a random event (50 %) or a failpoint at a random library statement (15 %); context operators are "
+        "Hamiltonians and SelfAdjointOperators and are themselves written between visits (element writes through the managed array, assignment, "
+        "remove/subtract/recover_cutoff_coupling, Operator.__add__), visited with and without being read or protected ('revisit' programs); objects "
+        "extracted with at(t) from evolutions and evolution superoperators are tracked next to their source. "
         "distinct = (event-kind sequence, nesting profile, exception class); non-trivial iff at least one object was actually transformed (read inside a "
         "context whose transformation is not the identity) before the final check.")
 ASSUMPTIONS = ["the transformation matrix the library puts on its stack is *validated* (orthogonal; diagonalises the context operator with ascending eigenvalues) "
@@ -33,7 +36,7 @@ REQUIRED_CLAUSES = ["context-operator-diagonal-ascending", "presented-in-context
 TIMEOUT = {"quick": 900, "thorough": 3400}
 EPS = numpy.finfo(float).eps
 KINDS = ["Operator", "SelfAdjointOperator", "Hamiltonian", "ReducedDensityMatrix", "DensityMatrix", "TransitionDipoleMoment", "SuperOperator",
-         "LindbladTensor", "LindbladOperators", "Evolution"]
+         "LindbladTensor", "LindbladOperators", "Evolution", "EvolutionSuperOperator"]
 
 
 def gen_cases(tier, rng):
@@ -47,6 +50,11 @@ def gen_cases(tier, rng):
     for i in range(12 if tier == "quick" else 60):
         cases.append({"cls": "constructor-failure", "seed": int(rng.integers(1 << 30)), "dim": int(rng.integers(2, 5)), "depth": int(rng.integers(1, 3)),
                       "which": str(rng.choice(["Operator", "SuperOperator", "TransitionDipoleMoment", "ReducedDensityMatrix"])), "cost": 0.5})
+    for i in range(60 if tier == "quick" else 400):
+        kind = ["Hamiltonian", "SelfAdjointOperator"][i % 2]
+        pool = ["cutoff", "subtract", "recover", "assign", "add"] if kind == "Hamiltonian" else ["element", "element", "add", "assign"]
+        cases.append({"cls": "revisit", "seed": int(rng.integers(1 << 30)), "dim": int(rng.integers(3, 6)), "kind": kind,
+                      "first": str(rng.choice(["unread", "protected", "read"])), "write": [str(w) for w in rng.choice(pool, size=int(rng.integers(1, 4)))], "cost": 0.5})
     return cases
 
 
@@ -143,6 +151,8 @@ def tr_any(d, S, kind):
         return numpy.einsum("ia,jb,ijkl,kc,ld->abcd", S, S, d, S, S)
     if kind == "Evolution":
         return numpy.stack([S.T @ d[k] @ S for k in range(d.shape[0])], axis=0)
+    if kind == "EvolutionSuperOperator":
+        return numpy.einsum("ia,jb,tijkl,kc,ld->tabcd", S, S, d, S, S)
     if kind == "LindbladOperators":
         return numpy.stack([S.T @ d[k] @ S for k in range(d.shape[0])], axis=0)
     return S.T @ d @ S
@@ -208,6 +218,88 @@ def run_case(case, ctx):
         ctx.key(("constructor-failure", case["which"], case["depth"], n))
         ctx.nontrivial(seen is not None)
         return
+    if case["cls"] == "revisit":
+        # a context operator is written between two visits of its own context; what the second visit presents is decided
+        # by the operator's value at that moment, however it was written and whatever happened in the first visit
+        kind, first, write = case["kind"], case["first"], case["write"]
+        Ad = rsym(rng, n, str(rng.choice(["generic", "generic", "degenerate"])))
+        A = (qr.Hamiltonian if kind == "Hamiltonian" else qm.SelfAdjointOperator)(data=Ad.copy())
+        Bd = rng.normal(size=(n, n))
+        B = qm.Operator(data=Bd.copy())
+        ref = Ad.copy()
+        jr = None
+        tol = lambda a: 1e-9 * max(float(numpy.max(numpy.abs(a))), 1.0) * n
+
+        def visit(how, tag):
+            if how == "protected":
+                A.protect_basis()
+            try:
+                with qr.eigenbasis_of(A):
+                    S = numpy.array(m.basis_transformations[-1], dtype=float)
+                    bd = numpy.array(B.data)
+                    ctx.check("presented-in-context-basis", float(numpy.max(numpy.abs(S.T @ S - numpy.eye(n)))), 1e-10 * n, {"what": "transformation orthogonal", "visit": tag})
+                    dg = S.T @ ref @ S
+                    ctx.check("presented-in-context-basis", float(numpy.max(numpy.abs(dg - numpy.diag(numpy.diag(dg))))), tol(ref),
+                              {"what": "the transformation diagonalises the context operator as it is now", "visit": tag, "kind": kind, "first": first, "write": write})
+                    ctx.check("presented-in-context-basis", float(numpy.max(numpy.abs(bd - S.T @ Bd @ S))), tol(Bd), {"what": "other operator in the context basis", "visit": tag})
+                    if how == "read":
+                        ad = numpy.array(A.data)
+                        off = float(numpy.max(numpy.abs(ad - numpy.diag(numpy.diag(ad)))))
+                        asc = float(max(0.0, -numpy.min(numpy.diff(numpy.diag(ad)))))
+                        ctx.check("context-operator-diagonal-ascending", max(off, asc), tol(ref), {"visit": tag, "kind": kind, "first": first, "write": write, "off_diagonal": off})
+                        ctx.check("context-operator-diagonal-ascending", float(numpy.max(numpy.abs(numpy.diag(ad) - numpy.linalg.eigvalsh(ref)))), tol(ref),
+                                  {"what": "eigenvalues", "visit": tag, "kind": kind, "first": first, "write": write})
+            finally:
+                if how == "protected":
+                    A.unprotect_basis()
+
+        with ctx.lib("revisit program", mechanism=None):
+            with contextlib.redirect_stdout(out):
+                visit(first, "first")
+                for w in write:
+                    if w == "element":
+                        dd = A.data
+                        if not numpy.shares_memory(dd, A._data):
+                            continue
+                        i0, j0 = int(rng.integers(n)), int(rng.integers(n))
+                        x = float(rng.normal()) + 0.5
+                        dd[i0, j0] += x
+                        ref[i0, j0] += x
+                        if i0 != j0:
+                            dd[j0, i0] += x
+                            ref[j0, i0] += x
+                    elif w == "add":
+                        Cd = rsym(rng, n, "generic")
+                        A + qm.Operator(data=Cd.copy())
+                        ref = ref + Cd
+                    elif w == "assign":
+                        ref = rsym(rng, n, "generic")
+                        A.data = ref.copy()
+                    elif w in ("cutoff", "subtract") and kind == "Hamiltonian" and jr is None:
+                        offd = numpy.abs(ref[numpy.triu_indices(n, 1)])
+                        c = float(numpy.median(offd)) * 1.0000001 + 1e-12
+                        if w == "cutoff":
+                            A.remove_cutoff_coupling(c)
+                            keep = (numpy.abs(ref) >= c) | numpy.eye(n, dtype=bool)
+                            jr = numpy.where(keep, 0.0, ref)
+                        else:
+                            A.subtract_cutoff_coupling(c)
+                            offm = ~numpy.eye(n, dtype=bool)
+                            jr = numpy.where(offm, numpy.where(numpy.abs(ref) <= c, ref, numpy.sign(ref) * c), 0.0)
+                        ref = ref - jr
+                    elif w == "recover" and jr is not None:
+                        A.recover_cutoff_coupling()
+                        ref = ref + jr
+                        jr = None
+                    ctx.check("restored-after-exit", float(numpy.max(numpy.abs(numpy.array(A.data) - ref))), tol(ref), {"what": "context operator after write " + w, "kind": kind})
+                    visit(str(rng.choice(["read", "unread"])), "after " + w)
+                ctx.check("restored-after-exit", float(numpy.max(numpy.abs(numpy.array(A.data) - ref))), tol(ref), {"what": "context operator at the end", "kind": kind})
+                ctx.check("restored-after-exit", float(numpy.max(numpy.abs(numpy.array(B.data) - Bd))), tol(Bd), {"what": "other operator at the end"})
+        ctx.require("bookkeeping-restored", list(m.basis_stack) == [0] and len(m.basis_transformations) == 1, {"after": "revisit program"})
+        ctx.event("revisit_programs")
+        ctx.key(("revisit", kind, first, tuple(write), n))
+        ctx.nontrivial(True)
+        return
     events = []
     stats = {"transformed": False}
     tshort = qr.TimeAxis(0.0, 6, 0.5)
@@ -259,6 +351,16 @@ def run_case(case, ctx):
                 hh = qr.Hamiltonian(data=rsym(rng, n, "generic"))
                 o = qm.ReducedDensityMatrixPropagator(tshort, hh).propagate(qr.ReducedDensityMatrix(data=r0))
                 d = numpy.array(o._data, copy=True)
+            elif kind == "EvolutionSuperOperator":
+                if n > 4:
+                    return create(Stot, "SuperOperator")
+                hh = qr.Hamiltonian(data=rsym(rng, n, "generic"))
+                K = rng.normal(size=(n, n))
+                sbi = qm.SystemBathInteraction(sys_operators=[qm.Operator(data=K.copy())], rates=[float(rng.uniform(0.05, 0.5))])
+                o = qm.EvolutionSuperOperator(tshort, hh, qm.LindbladForm(hh, sbi, as_operators=False))
+                o.set_dense_dt(2)
+                o.calculate(show_progress=False)
+                d = numpy.array(o._data, copy=True)
         ref = tr_any(d, Sinv, kind) if not numpy.allclose(Stot, numpy.eye(n)) else d.copy()
         events.append("C:" + kind)
         return Obj(kind, o, numpy.array(ref))
@@ -267,7 +369,11 @@ def run_case(case, ctx):
     ctxops = []
     for k in range(2):
         d = rsym(rng, n, str(rng.choice(["generic", "generic", "degenerate", "diagonal"])))
-        ctxops.append(Obj("Hamiltonian", qr.Hamiltonian(data=d.copy()), d.copy()))
+        if k == 1 and rng.random() < 0.6:
+            ctxops.append(Obj("SelfAdjointOperator", qm.SelfAdjointOperator(data=d.copy()), d.copy()))
+        else:
+            ctxops.append(Obj("Hamiltonian", qr.Hamiltonian(data=d.copy()), d.copy()))
+    active = []         # context operators whose context is currently entered
     state = {"step": 0}
     raise_at = int(rng.integers(1, case["steps"] + 1)) if case["exc"] == "harness" else -1
     scale = lambda a: max(float(numpy.max(numpy.abs(a))), 1.0)
@@ -300,7 +406,7 @@ def run_case(case, ctx):
                 raise Boom("harness")
             if state["step"] > case["steps"]:
                 break
-            ev = str(rng.choice(["READ", "READ", "WRITE", "CREATE", "SCALARS", "APPLY", "PROTECT", "ENTER", "ENTER", "PROPAGATE"]))
+            ev = str(rng.choice(["READ", "READ", "WRITE", "CREATE", "SCALARS", "APPLY", "PROTECT", "ENTER", "ENTER", "PROPAGATE", "MODCTX", "AT"]))
             i = int(rng.integers(0, len(objs)))
             o = objs[i]
             if ev == "READ":
@@ -316,6 +422,64 @@ def run_case(case, ctx):
                 check_read(o, Stot, level)
             elif ev == "CREATE":
                 objs.append(create(Stot))
+            elif ev == "MODCTX":
+                # a context operator is written between two visits of its context (in place or by assignment)
+                cands = [x for x in ctxops if x.protected_S is None and not any(x is y for y in active)]
+                if cands:
+                    A = cands[int(rng.integers(len(cands)))]
+                    mode = str(rng.choice(["element", "assign", "cutoff"]))
+                    with ctx.lib("writing a context operator (%s)" % mode, mechanism=None, expect=Boom):
+                        with contextlib.redirect_stdout(out):
+                            if mode == "cutoff" and A.kind == "Hamiltonian" and level == 0 and n > 2:
+                                if getattr(A, "jr", None) is None:
+                                    offd = numpy.abs(A.ref[numpy.triu_indices(n, 1)])
+                                    c = float(numpy.median(offd)) * 1.0000001 + 1e-12
+                                    events.append("M:cutoff")
+                                    A.obj.remove_cutoff_coupling(c)
+                                    keep = (numpy.abs(A.ref) >= c) | numpy.eye(n, dtype=bool)
+                                    A.jr = numpy.where(keep, 0.0, A.ref)
+                                    A.ref = numpy.where(keep, A.ref, 0.0)
+                                else:
+                                    events.append("M:recover")
+                                    A.obj.recover_cutoff_coupling()
+                                    A.ref = A.ref + A.jr
+                                    A.jr = None
+                            elif mode == "element" and A.kind != "Hamiltonian":
+                                dd = A.obj.data
+                                if numpy.shares_memory(dd, A.obj._data):
+                                    events.append("M:element")
+                                    i0, j0 = int(rng.integers(n)), int(rng.integers(n))
+                                    x = float(rng.normal())
+                                    cur = tr_op(A.ref, Stot)
+                                    dd[i0, j0] += x
+                                    cur[i0, j0] += x
+                                    if i0 != j0:
+                                        dd[j0, i0] += x
+                                        cur[j0, i0] += x
+                                    A.ref = tr_op(cur, Stot.T)
+                            elif mode == "assign" and getattr(A, "jr", None) is None:
+                                events.append("M:assign")
+                                cur = tr_op(A.ref, Stot)
+                                new = 0.7 * cur + 0.3 * tr_op(rsym(rng, n, "generic"), Stot)
+                                new = (new + new.T) / 2
+                                A.obj.data = new.copy()
+                                A.ref = tr_op(new, Stot.T)
+                    if rng.random() < 0.3:
+                        check_read(A, Stot, level)
+            elif ev == "AT":
+                # a managed object extracted from an evolution: a new object that must not share its fate with the source
+                evs = [x for x in objs if x.kind in ("Evolution", "EvolutionSuperOperator") and x.protected_S is None]
+                if evs:
+                    E = evs[int(rng.integers(len(evs)))]
+                    k0 = int(rng.integers(len(tshort.data)))
+                    events.append("AT:" + E.kind)
+                    with ctx.lib("evolution.at(t)", mechanism=None, expect=Boom):
+                        with contextlib.redirect_stdout(out):
+                            r = E.obj.at(float(tshort.data[k0]))
+                    new = Obj("ReducedDensityMatrix" if E.kind == "Evolution" else "SuperOperator", r, numpy.array(E.ref[k0], copy=True))
+                    objs.append(new)
+                    for x in ((E, new) if rng.random() < 0.5 else (new, E)):
+                        check_read(x, Stot, level)
             elif ev == "SCALARS":
                 events.append("S")
                 ops = [x for x in objs if x.kind in ("Operator", "SelfAdjointOperator", "Hamiltonian") and x.protected_S is None]
@@ -398,13 +562,18 @@ def run_case(case, ctx):
         entered = {"S": None}
         try:
             with qr.eigenbasis_of(A.obj):
-                with ctx.lib("context operator data", mechanism=None, expect=Boom):
-                    ad = numpy.array(A.obj.data)
-                off = float(numpy.max(numpy.abs(ad - numpy.diag(numpy.diag(ad)))))
-                asc = float(max(0.0, -numpy.min(numpy.diff(numpy.diag(ad))))) if n > 1 else 0.0
-                ctx.check("context-operator-diagonal-ascending", max(off, asc), 1e-9 * scale(A.ref) * n, {"level": level + 1, "off_diagonal": off, "descent": asc})
-                ctx.check("context-operator-diagonal-ascending", float(numpy.max(numpy.abs(numpy.diag(ad) - numpy.linalg.eigvalsh(A.ref)))), 1e-9 * scale(A.ref) * n,
-                          {"what": "eigenvalues", "level": level + 1})
+                active.append(A)
+                if rng.random() < 0.6:
+                    with ctx.lib("context operator data", mechanism=None, expect=Boom):
+                        ad = numpy.array(A.obj.data)
+                    off = float(numpy.max(numpy.abs(ad - numpy.diag(numpy.diag(ad)))))
+                    asc = float(max(0.0, -numpy.min(numpy.diff(numpy.diag(ad))))) if n > 1 else 0.0
+                    ctx.check("context-operator-diagonal-ascending", max(off, asc), 1e-9 * scale(A.ref) * n, {"level": level + 1, "off_diagonal": off, "descent": asc,
+                                                                                                             "kind": A.kind, "events": events[-12:]})
+                    ctx.check("context-operator-diagonal-ascending", float(numpy.max(numpy.abs(numpy.diag(ad) - numpy.linalg.eigvalsh(A.ref)))), 1e-9 * scale(A.ref) * n,
+                              {"what": "eigenvalues", "level": level + 1, "kind": A.kind, "events": events[-12:]})
+                else:
+                    events.append("(unread)")
                 S = numpy.array(m.basis_transformations[-1], dtype=float)
                 ctx.check("presented-in-context-basis", float(numpy.max(numpy.abs(S.T @ S - numpy.eye(n)))), 1e-10 * n, {"what": "transformation orthogonal", "level": level + 1})
                 Acur = tr_op(A.ref, Stot)
@@ -422,8 +591,11 @@ def run_case(case, ctx):
                 finally:
                     if armed:
                         fp.disarm()
+            active.pop()
             events.append("EXIT")
         except Boom:
+            if active and active[-1] is A:
+                active.pop()
             events.append("EXIT!")
             after = mgr_state()
             ctx.require("bookkeeping-restored", after == before, {"after": "exception", "level": level, "before": before[:4], "now": after[:4], "events": events[-14:]})
@@ -466,6 +638,15 @@ def run_case(case, ctx):
         if getattr(o, "skip", False):
             continue
         check_read(o, numpy.eye(n), 0, what="restored-after-exit")
+    for e in events:
+        if e.startswith("M:") or e.startswith("AT:") or e == "(unread)":
+            ctx.event("program_" + e.replace(":", "_").strip("()"))
+    # a context operator written in place and its context re-entered without the operator being read in the earlier visit
+    seq = [e for e in events if e in ("ENTER", "(unread)", "M:element", "M:cutoff", "M:recover")]
+    for a in range(len(seq) - 2):
+        if seq[a] == "(unread)" and seq[a + 1].startswith("M:") and seq[a + 2] == "ENTER":
+            ctx.event("program_unread-visit_inplace-write_revisit")
+            break
     ctx.note("events", events[:60])
     prof = "".join("(" if e == "ENTER" else (")" if e.startswith("EXIT") else "") for e in events)
     ctx.key((tuple(e.split(":")[0] + (":" + e.split(":")[1][:4] if ":" in e else "") for e in events), prof, boom))
